@@ -269,7 +269,8 @@ fn env_props(env: &Env, calls: &mut Vec<Value>, rng: &mut Sm, all: bool) {
 pub fn gen_stepenv_script(id: usize, rng: &mut Sm, n_calls: usize) -> GenOut {
     let tick = rng.range(1, 10) as u32;
     let t0 = if rng.chance(0.06) { (1u64 << *rng.pick(&[53u32, 60, 62])) + 1 + 2 * rng.below(500) } else { rng.below(1000) };
-    let step_size = *rng.pick(&[16u64, 100, 10_000, 10_001]);
+    // one script in twenty steps by an odd number just above 2^53 / 2^54 / 2^56 time units (not representable as a double)
+    let step_size = if rng.chance(0.05) { (1u64 << *rng.pick(&[53u32, 54, 56])) + 1 + 2 * rng.below(50) } else { *rng.pick(&[16u64, 100, 10_000, 10_001]) };
     let seed = rng.next() >> rng.below(40);
     let trading0 = !rng.chance(0.1);
     let mut env: Env = Env::new(t0, tick, step_size, trading0);
